@@ -38,6 +38,7 @@ def run(v, workdir, replay):
     v.need("byte_limit_binding", 2)
     v.need("sequenced_limit_binding", 1)
     v.need("multi_group_blocks", 4)
+    v.need("proposals_carrying_signed_vote_extensions", 20)
 
 
 def check(v, hists):
@@ -56,6 +57,8 @@ def check(v, hists):
                 if e["kind"] == "lab_tx" and e["result"] != "ok" and "non-fatal" not in e["result"] and "NonFatal" not in e["result"]:
                     if not e["result"].startswith("err:`IbcRelay`"):
                         v.violate("C06/proposed-transaction-failed-fatally", "a transaction contained in an honest block failed fatally: " + e["result"][:120], wit)
+                if e["kind"] == "eci" and e.get("committed_power", 0) > 0:
+                    v.saw("proposals_carrying_signed_vote_extensions")
                 if e["kind"] == "proposal_honest":
                     v.evaluations += 1
                     v.saw("honest_proposals")
